@@ -323,6 +323,12 @@ func (vc *VC) setHeap(st *State, name, sort, term string) {
 			vc.emit(fmt.Sprintf("(assert (= (select (select %s %s) %s) %s))", n, k, inner[2], inner[3]))
 		} else {
 			vc.emit(fmt.Sprintf("(assert (= (select %s %s) %s))", n, k, v))
+			if strings.HasPrefix(name, "GH.") && strings.HasPrefix(sort, "(Array ") {
+				// ghost arrays are mostly read under quantifiers: state the frame of the update as a triggered
+				// fact so that instances over the new array produce the corresponding terms over the old one
+				ks := arrayKeySort(sort)
+				vc.emit(fmt.Sprintf("(assert (forall ((k!u %s)) (! (=> (not (= k!u %s)) (= (select %s k!u) (select %s k!u))) :pattern ((select %s k!u)))))", ks, k, n, parts[1], n))
+			}
 		}
 	}
 }
